@@ -537,6 +537,52 @@ static void check_make_rotation(XCtx& cx)
                                        m[i][j], Rl[i][j]);
                         });
         }
+    // (d2) the composing overload make_rotation(Axis, Turn, other): documented as "applies the new
+    // axis + turn as a rotation operator to the LEFT of the matrix".  Reference: long double
+    // Rodrigues(e_ax, theta) x long double Rodrigues(other) - nothing from the code under test
+    // (its result used to be copied into the model of the xform letters only).
+    {
+        struct Other
+        {
+            ld axis[3];
+            double turn;
+        };
+        Other const others[] = {{{0, 0, 1}, 0.375}, {{1, 2, 3}, 0.3}};
+        for (auto const& o : others)
+        {
+            double n[3];
+            normalize(o.axis, n);
+            ld nl[3] = {n[0], n[1], n[2]};
+            ld Ol[3][3];
+            rodrigues(nl, o.turn, Ol);
+            Mat3 om = make_rotation(Real3{n[0], n[1], n[2]}, Turn{o.turn});
+            for (int a = 0; a < 3; ++a)
+                for (double tn : {0.1, 0.25, 0.625})
+                {
+                    ld el[3] = {0, 0, 0};
+                    el[a] = 1;
+                    ld Rl[3][3];
+                    rodrigues(el, tn, Rl);
+                    Mat3 m = make_rotation(Axis(a), Turn{tn}, om);
+                    cx.evals++;
+                    for (int i = 0; i < 3; ++i)
+                        for (int j = 0; j < 3; ++j)
+                        {
+                            ld want = 0;
+                            for (int k = 0; k < 3; ++k)
+                                want += Rl[i][k] * Ol[k][j];
+                            // 8 eps per factor (as above) + the 3-term dot product
+                            if (!(fabsl(ld(m[i][j]) - want) <= 24 * EPS))
+                                cx.viol("make_rotation:composition-not-left-product", cid, [&] {
+                                    return fmt("make_rotation(axis %d, %g, rot(%s;%g)) entry[%d][%d]=%.17g, "
+                                               "expected (R_ax * other) = %.20Lg",
+                                               a, tn, p3(n).c_str(), o.turn, i, j, m[i][j], want);
+                                });
+                        }
+                }
+        }
+        cx.tags["alg:make_rotation-composition-checked"]++;
+    }
     cx.tags["alg:make_rotation-checked"]++;
 }
 
@@ -545,12 +591,19 @@ static void check_transform_simplifier(XCtx& cx, std::vector<XF> const& xfs)
     std::string cid = "tsimp:all";
     if (!cx.R.want(cid))
         return;
-    auto tol = Tolerance<>::from_default();
+    // (d2) three tolerances with rel != abs: the class documents "we use the relative tolerance";
+    // (rel 1e-6, abs 1e-4) and (rel 1e-4, abs 1e-6) have letters BETWEEN the two members
+    // (translations 1e-5, 3e-5, rotations of 3e-6 and 1e-5 turn = 1.9e-5, 6.3e-5 rad)
+    std::vector<Tolerance<>> const tolerances = {Tolerance<>::from_default(), Tolerance<>::from_relative(1e-6, 100),
+                                                 Tolerance<>::from_relative(1e-4, 0.01)};
     std::vector<XF> list = xfs;
     // near-identity rotations and tiny translations
-    for (double ang : {1e-10, 1e-9, 1e-7, 1e-4})
+    for (double ang : {1e-10, 1e-9, 1e-7, 3e-6, 1e-5, 1e-4})
+    {
         list.push_back(make_xf(fmt("rot(z;%g turn)", ang), make_rotation(Axis::z, Turn{ang}), {1, 0, 0}));
-    for (double tt : {1e-9, 1e-8, 2e-8, 1e-6})
+        list.push_back(make_xf(fmt("rot(x;%g turn)+0", ang), make_rotation(Axis::x, Turn{ang}), {0, 0, 0}));
+    }
+    for (double tt : {1e-9, 1e-8, 2e-8, 1e-6, 1e-5, 3e-5})
     {
         list.push_back(make_translation(fmt("tiny-translation %g", tt), {tt, 0, 0}, true));
         list.push_back(make_translation(fmt("tiny-translation %g as transformation", tt), {0, -tt, 0}, false));
@@ -560,6 +613,7 @@ static void check_transform_simplifier(XCtx& cx, std::vector<XF> const& xfs)
         for (double y : {-1.0, 0.0, 0.5})
             for (double z : {-1.0, 0.0, 0.5})
                 pts.push_back({x, y, z});
+    for (auto const& tol : tolerances)
     for (XF const& T : list)
     {
         TransformSimplifier simp{tol};
@@ -567,6 +621,9 @@ static void check_transform_simplifier(XCtx& cx, std::vector<XF> const& xfs)
         std::visit(
             [&](auto const& t2) {
                 using TT = std::decay_t<decltype(t2)>;
+                if constexpr (!std::is_same_v<TT, Transformation>)
+                    if (!T.is_translation || std::is_same_v<TT, NoTransformation>)
+                        cx.tags[fmt("tsimp:simplified@rel=%g,abs=%g", double(tol.rel), double(tol.abs))]++;
                 if constexpr (std::is_same_v<TT, NoTransformation>)
                     cx.tags["tsimp:to-no-transformation"]++;
                 else if constexpr (std::is_same_v<TT, Translation>)
@@ -906,6 +963,47 @@ static void enumerate_simplifier_specials(vf::Run& R, uint64_t first_global, Fn&
         V("simp-ky", i++, ConeAligned<Axis::y>{Real3{uv[0], 0.5, uv[1]}, 0.5}, fn);
         V("simp-kz", i++, ConeAligned<Axis::z>{Real3{uv[0], uv[1], uv[0]}, 2.0}, fn);
     }
+    // (d2) "dust" COEFFICIENTS between the tolerance and its square root (the offsets above cover
+    // origins only): plane normal components, SQ second-order terms, GQ cross terms of 1e-7 /
+    // 2^-20 / 1e-5 (1e-4 / 2^-11 for the thorough tolerance 1e-6) must NOT be dropped: dropping
+    // them moves the surface by 1e-7 |x| .. 1e-5 |x|^2, which the 2^-24 (2^-12) ring sees.
+    // (appended last: the indices of the earlier specials are unchanged)
+    for (auto const& n : std::vector<Real3>{unit(1, 1e-7L, 0), unit(1, -0x1p-20L, 1e-5L), unit(1e-5L, 0.6L, -0.8L),
+                                            unit(1e-4L, 0, 1), unit(0, 1, -0x1p-11L)})
+        for (double d : {0.0, 0.5})
+            V("simp-p", i++, Plane{n, d}, fn);
+    std::vector<SimpleQuadric> dusty = {
+        SimpleQuadric{Real3{1e-7, 0, -0x1p-20}, Real3{1, 2, 3}, -0.5},  // NOT a plane
+        SimpleQuadric{Real3{1, 1 + 1e-6, 1 - 0x1p-20}, Real3{-1, 2, 0}, -2.0},  // NOT a sphere
+        SimpleQuadric{Real3{1, 1 + 1e-6, 0}, Real3{-1, 2, 0}, -2.0},  // NOT a circular cylinder
+        SimpleQuadric{Real3{1, 1, 1e-5}, Real3{0, 0, 0}, -1.0},  // NOT a cylinder along z
+        SimpleQuadric{Real3{1e-4, 0, 0x1p-11}, Real3{1, 2, 3}, -0.5},  // thorough-tolerance variants
+        SimpleQuadric{Real3{1, 1 + 1e-4, 1 - 0x1p-11}, Real3{-1, 2, 0}, -2.0},
+    };
+    for (auto const& b : dusty)
+        for (double k : {1.0, -0.5})
+        {
+            auto d = b.data();
+            V("simp-sq", i++,
+              SimpleQuadric{Real3{k * d[0], k * d[1], k * d[2]}, Real3{k * d[3], k * d[4], k * d[5]}, k * d[6]}, fn);
+        }
+    for (size_t bi : {size_t(0), size_t(3), size_t(6)})  // sphere, cylinder y, cone y of `base`
+        for (double k : {1.0, -0.5})
+        {
+            auto d = base[bi].data();
+            V("simp-gq", i++,
+              GeneralQuadric{Real3{k * d[0], k * d[1], k * d[2]}, Real3{0, 1e-7 * k, 0},
+                             Real3{k * d[3], k * d[4], k * d[5]}, k * d[6]},
+              fn);
+            V("simp-gq", i++,
+              GeneralQuadric{Real3{k * d[0], k * d[1], k * d[2]}, Real3{1e-5 * k, 0, -0x1p-20 * k},
+                             Real3{k * d[3], k * d[4], k * d[5]}, k * d[6]},
+              fn);
+            V("simp-gq", i++,
+              GeneralQuadric{Real3{k * d[0], k * d[1], k * d[2]}, Real3{0, 0, 1e-4 * k},
+                             Real3{k * d[3], k * d[4], k * d[5]}, k * d[6]},
+              fn);
+        }
 }
 
 }  // namespace
